@@ -17,6 +17,9 @@ THEOREMS = [
     'SF.C02.fromLabels_sound', 'SF.C02.fromLabels_rejects', 'SF.C02.leaf_bijection',
     'SF.C02.appendPinned_counterexample', 'SF.C02.append_repaired_example', 'SF.C02.append_exact',
     'SF.C02.levelGO_history', 'SF.C02.levelGO_extend_rejected',
+    'SF.C02.fromLabels_populated', 'SF.C02.level_drop_inner_spec', 'SF.C02.level_drop_inner_bijection', 'SF.C02.levelDropInnerPinned_counterexample',
+    'SF.C02.level_drop_inner_repaired_example', 'SF.C02.level_drop_outer_spec', 'SF.C02.level_drop_outer_shared_label_example',
+    'SF.C02.levelDropOuterPinned_counterexample', 'SF.C02.level_drop_outer_repaired_example',
 ]
 PARTIAL = []
 CORR_ONLY = [
@@ -25,7 +28,7 @@ CORR_ONLY = [
     'conversion route at depth 3-4; the static source and copies taken before the growth must stay unchanged)',
     'automap hashing (model parameter: "insertion raises iff the ==/hash class is present"), isinstance(value, INT_TYPES) (model parameter IntLabel)',
     'typed datetime indices (IndexDate/YearMonth/Year/Second): label conversion and the loose datetime slice branches of LocMap.map_slice_args',
-    'derivation routes (selection, drop, relabel, roll, sort, set operations, level_add/level_drop, flat, astype, rehierarch, copy/rename, static<->GO): tied by the oracle "the result satisfies the bijection" and a list reference',
+    'derivation routes (selection, drop, relabel, roll, sort, set operations, level_add, flat, astype, rehierarch, copy/rename, static<->GO): tied by the oracle "the result satisfies the bijection" and a list reference (level_drop is modelled as well: Level.levelDropInner / levelDropOuter, compared tree by tree)',
     'from_product / from_tree / from_index_items build the tree without the observed_last builder: compared with the model tree built from the same tuples',
 ]
 RULE = ('label sequences over typed pools (str/int/float/bool/tuple/mixed object/4 datetime units; 1 == 1.0 == True identified by hash class; '
@@ -460,7 +463,81 @@ def model_lines(c):
         return [f'level.fromlabels {tuples_wire(tups, intern)}']
     if k == 'ihgo':
         return [ihgo_model_line(c)[0]]
+    if k == 'derive' and c['op'] == 'level_drop' and 'ih' in c['base']:
+        ml = level_drop_model_line(c)
+        return [ml[0]] if ml else []
     return []
+
+
+def level_drop_count(c):
+    """signed count of a derive/level_drop case: inner (negative) for an odd shift, outer otherwise; two levels are
+    dropped on every second case of depth >= 3 (derived from the case, no extra randomness)"""
+    arg = c['arg']
+    depth = len(c['base']['kinds'])
+    mag = 2 if depth >= 3 and (arg['shift'] // 2) % 2 == 1 else 1
+    return -mag if arg['shift'] % 2 == 1 else mag
+
+
+def level_drop_model_line(c):
+    """`level.dropinner/dropouter <tree> <k>` on the tree read off the real object (same tree for model and code)"""
+    base = c['base']
+    tups = [untok(t) for t in base['ih']]
+    if not tups:
+        return None
+    intern = Interner()
+    try:
+        ix = ic.build_ih(tups, 'from_labels', go=base['go'])
+    except Exception:
+        return None
+    cnt = level_drop_count(c)
+    tree = ic.level_wire(ix._levels, intern)
+    return (f'level.dropinner {tree} {-cnt}' if cnt < 0 else f'level.dropouter {tree} {cnt}'), intern
+
+
+def compare_level_drop(ctx, c, out, real):
+    """model answer of level_drop versus the real result: same rejection, same labels / tuples, and for a
+    hierarchical result the same tree (labels per node AND offsets)"""
+    fails = []
+    ml = level_drop_model_line(c)
+    if ml is None:
+        return fails
+    inv = ic.inv_map(ml[1])
+    cnt = level_drop_count(c)
+    ma = ic.parse_answer(out)
+    side = 'inner' if cnt < 0 else 'outer'
+    ctx.count(f'level_drop_model_{side}{abs(cnt)}')
+    if ma[0] == 'bad':
+        return [Failure('corr', f'level_drop({cnt}): model answered {out!r}', c)]
+    if real[0] == 'err':
+        ctx.count('level_drop_model_reject')
+        if ma[0] != 'err' or ma[1] != real[1]:
+            fails.append(Failure('corr', f'level_drop({cnt}): code raised {real[1]} ({type(real[2]).__name__}), model {out!r}', c))
+        return fails
+    if ma[0] != 'ok':
+        return [Failure('corr', f'level_drop({cnt}): code answered an index, model {out!r}', c)]
+    res = real[1]
+    levels = getattr(res, '_levels', None)
+    if levels is None:
+        ctx.count('level_drop_model_flat')
+        sx = ma[1] if isinstance(ma[1], list) else [ma[1]]
+        if sx and sx[0] in ('l', 'n') and len(sx) in (3, 4) and isinstance(sx[1], list):
+            return [Failure('corr', f'level_drop({cnt}): code answered a flat Index, model a tree {out!r}', c)]
+        got = ['n:' + a[2:] if a.startswith('i:') else inv.get(a, a) for a in sx]
+        exp = [H(x) for x in res]
+        if got != exp:
+            fails.append(Failure('corr', f'level_drop({cnt}): flat labels {exp} (code) != {got} (model)', c))
+        return fails
+    ctx.count('level_drop_model_tree')
+    sx = ma[1]
+    if not (isinstance(sx, list) and sx and sx[0] in ('l', 'n')):
+        return [Failure('corr', f'level_drop({cnt}): code answered a hierarchy, model {out!r}', c)]
+    mst = ic.struct_from_sexp(sx, inv)
+    rst = ic.level_struct(levels)
+    if ic.struct_tuples(mst) != [HT(x) for x in res]:
+        fails.append(Failure('corr', f'level_drop({cnt}): tuples {[HT(x) for x in res]} (code) != {ic.struct_tuples(mst)} (model)', c))
+    if mst != rst:
+        fails.append(Failure('corr', f'level_drop({cnt}): tree (labels per node, offsets) {rst} (code) != {mst} (model)', c))
+    return fails
 
 
 def ihgo_model_line(c):
@@ -1259,7 +1336,7 @@ def eval_derive(ctx, c, outs):
             res_hier = True
         elif op == 'level_drop' and arg['shift'] % 2 == 1:
             # inner levels dropped: the tree keeps one node per remaining prefix (repaired: the offsets of the kept targets)
-            cnt = -1
+            cnt = level_drop_count(c)
             d = len(base['kinds'])
             seen_p = []
             for h in hs:
@@ -1271,7 +1348,7 @@ def eval_derive(ctx, c, outs):
                 res_hier = False
             res = ix.level_drop(cnt)
         elif op == 'level_drop':
-            cnt = 1
+            cnt = level_drop_count(c)
             d = len(base['kinds'])
             res_exp = [h[cnt:] for h in hs]
             if d - cnt == 1:
@@ -1280,11 +1357,13 @@ def eval_derive(ctx, c, outs):
                 expect_dup = len(set(res_exp)) != len(res_exp)
             else:
                 expect_dup = len(set(res_exp)) != len(res_exp) or not ic.tree_ordered(res_exp)
-                # the promoted targets keep their own label lists: a label held under two different dropped parents makes
-                # the new outer index non-unique, which level_drop rejects (ErrorInitIndexNonUnique) instead of merging
+            # the promoted targets keep their own label lists: a label held under two different dropped parents makes
+            # the new outer index non-unique, which level_drop rejects (ErrorInitIndexNonUnique) instead of merging;
+            # this holds for the outer index of every round
+            for j in range(1, cnt + 1):
                 parents = {}
                 for h in hs:
-                    parents.setdefault(h[cnt], set()).add(h[:cnt])
+                    parents.setdefault(h[j], set()).add(h[:j])
                 if any(len(v) > 1 for v in parents.values()):
                     expect_dup = True
             exp = res_exp
@@ -1313,6 +1392,8 @@ def eval_derive(ctx, c, outs):
         real = ('ok', res)
     except Exception as ex:
         real = ('err', err_cat(ex), ex)
+    if op == 'level_drop' and hier and outs:
+        fails.extend(compare_level_drop(ctx, c, outs[0], real))
     # selection by a list naming one position twice / tree-breaking order is rejected, not an index with duplicates
     if exp is not None and op in ('iloc', 'getitem', 'loc', 'frame_roundtrip') and hier and not ic.tree_ordered(exp):
         expect_dup = True
